@@ -33,6 +33,7 @@ TRUSTED = [
 ]
 
 KEY_SLACK = "auto-insufficient-within-dust-slack"
+KEY_SHARED = "reservation:shared-coin-freed-by-release"
 
 
 def run_harness(c, exe_go, tier, replay):
@@ -136,6 +137,10 @@ def main(tier, replay=None):
             clauses = pred[6:]
             if kind == "M" and "2" in clauses.split(","):
                 key = "manual-duplicate-input"
+            elif kind == "A" and scenario == 5 and clauses.split(",")[0] == "1":
+                # corpus scenario 5 (harness/cmd/c02 corpus): the coin of a still outstanding draft, freed by giving up a
+                # later draft that named it explicitly, is taken by the next automatic draft
+                key = KEY_SHARED
             elif kind in "AM":
                 key = ("auto" if kind == "A" else "manual") + "-clause-" + clauses.split(",")[0]
             else:
